@@ -13,6 +13,9 @@ type Dials[T any] struct {
 	params      Params[T]
 	cbch        chan<- userCallbackEvent
 	monCtl      chan<- verifyEnable[T]
+	// monDone is closed when the monitor goroutine exits. Nothing is
+	// received from cbch or monCtl after that.
+	monDone chan struct{}
 }
 
 // View returns the configuration struct populated.
